@@ -72,22 +72,30 @@ def run(ctx):
     rng = ctx.rng
     known = vlib.known_findings("C15")
     ctx.cov["rule"] = ("seeded random event sequences (0..50 events of the five kinds with interleaved request-level errors, "
-                       "payloads 0..4 KiB quick / 0..256 KiB thorough incl. empty and binary, Stats/Progress values at the i64 "
+                       "payloads 0..4 KiB quick / 0..32 KiB and one of 256 KiB thorough incl. empty and binary, Stats/Progress values at the i64 "
                        "edges, known and custom codes, non-ASCII messages) framed by the real SelectObjectContentEventStream; "
                        "the bytes are compared with the model's frames AND decoded by the model's independent decoder and "
                        "compared with the events sent. Non-trivial: a sequence with at least one frame; distinct sequences.")
     r = ctx.coq(imports=IMPORTS)
     if not r["ok"]:
         ctx.violation(dict(stage="coq", kind="proof obligation or audit failed", issues=r["issues"]), has_input=False)
-    n = 40 if ctx.quick else 400
-    maxp = 4096 if ctx.quick else 65536
+    n = 40 if ctx.quick else 160
+    maxp = 4096 if ctx.quick else 32768
     seqs = [[], [dict(k="end")], [dict(k="records", p="")], [dict(k="records", p=None), dict(k="cont"), dict(k="end")]]
     for _ in range(n):
         m = rng.choice([1, 2, 3, 5, 10, 50]) if rng.chance(1, 2) else rng.range(0, 50)
         mp = maxp if m <= 5 else 512
         seqs.append([gen_event(rng, mp) for _ in range(m)])
+    # long streams (counters, budgets and buffers of the framing side): every emitted item is framed, in order, whatever its index
+    for m in (31, 32, 33, 64, 65, 66, 100, 257) + (() if ctx.quick else (1000, 4097)):
+        seqs.append([dict(k="records", p="%04x" % j) if j % 7 else gen_event(rng, 64) for j in range(m)])
     if not ctx.quick:
         seqs.append([dict(k="records", p=rng.bytes(1 << 18).hex()), dict(k="end")])
+    # request-level errors with messages around the sizes of the two length prefixes (one byte for names, two for string values), also
+    # cut inside a multi-byte character, each followed by further events
+    for n_ in (254, 255, 256, 257, 300, 4096) + (() if ctx.quick else (65535,)):
+        seqs.append([dict(k="records", p="01"), dict(k="error", code=b"InternalError".hex(), msg=(b"m" * n_).hex()), dict(k="stats", d=[1, 2, 3]), dict(k="end")])
+    seqs.append([dict(k="error", code=b"SlowDown".hex(), msg=("x" * 254 + "\u00e9\u4e2d" * 40).encode().hex()), dict(k="end")])
     # the known class: a request-level error whose message does not fit a 16-bit header value
     big = [dict(k="records", p="00"), dict(k="error", code=b"InternalError".hex(), msg=(b"m" * 70000).hex()), dict(k="end")]
     seqs.append(big)
